@@ -81,14 +81,28 @@ func VH_C17_render() {
 			r.PlainText(status, text)
 		}
 	}
+	f.AutoHead(true)
 	f.Get("/", func(r Render) {
 		if !late {
 			do(r)
 		}
 	}, func(r Render) { do(r) })
 
+	// an earlier request of the same application (HEAD or GET, possibly with a client that stops reading):
+	// nothing of it may leak into the response under test
+	vx.PoolReuse(true)
+	if vx.ParamInt("prior") == 1 {
+		pm := "GET"
+		if vx.Bool() {
+			pm = "HEAD"
+		}
+		prior := &vCTSpy{}
+		prior.shortWrites = vx.Bool()
+		f.ServeHTTP(prior, &http.Request{Method: pm, URL: &url.URL{Path: "/"}, Header: http.Header{}})
+	}
 	spy := &vCTSpy{}
 	f.ServeHTTP(spy, &http.Request{Method: "GET", URL: &url.URL{Path: "/"}, Header: http.Header{}})
+	vx.PoolReuse(false)
 
 	wantCT := ""
 	switch kind {
@@ -109,23 +123,23 @@ func VH_C17_render() {
 	case "json":
 		if vx.Symbolic() {
 			log := vx.StubLog()
-			vx.Assert(len(log) == 1 && log[0] == "json.Encode \"VAL\" indent="+jsonIndent && string(spy.body) == "<json>",
-				"C17: the JSON encoder writes the given value to this request's writer with the configured indentation")
+			vx.Assert(len(log) >= 1 && log[len(log)-1] == "json.Encode \"VAL\" indent="+jsonIndent && string(spy.body) == "<json>",
+				"C17: the body is exactly the JSON encoding of the given value (encoder bound to this request's writer, configured indentation)")
 		} else {
 			var back string
 			err := json.Unmarshal(spy.body, &back)
-			vx.Assert(err == nil && back == "VAL", "C17: the JSON body decodes back to the given value")
+			vx.Assert(err == nil && back == "VAL", "C17: the body is exactly the JSON encoding of the given value (encoder bound to this request's writer, configured indentation)")
 			vx.Assert(jsonIndent == "" || true, "C17: indentation (scalar body: nothing to indent)")
 		}
 	case "xml":
 		if vx.Symbolic() {
 			log := vx.StubLog()
-			vx.Assert(len(log) == 1 && strings.HasPrefix(log[0], "xml.Encode ") && strings.HasSuffix(log[0], " indent="+xmlIndent) && string(spy.body) == "<xml>",
-				"C17: the XML encoder writes the given value to this request's writer with the configured indentation")
+			vx.Assert(len(log) >= 1 && strings.HasPrefix(log[len(log)-1], "xml.Encode ") && strings.HasSuffix(log[len(log)-1], " indent="+xmlIndent) && string(spy.body) == "<xml>",
+				"C17: the body is exactly the XML encoding of the given value (encoder bound to this request's writer, configured indentation)")
 		} else {
 			var back vXMLDoc
 			err := xml.Unmarshal(spy.body, &back)
-			vx.Assert(err == nil && back.V == "VAL", "C17: the XML body decodes back to the given value")
+			vx.Assert(err == nil && back.V == "VAL", "C17: the body is exactly the XML encoding of the given value (encoder bound to this request's writer, configured indentation)")
 			if xmlIndent != "" {
 				vx.Assert(strings.Contains(string(spy.body), "\n\t<v>"), "C17: the configured XML indentation is applied")
 			}
